@@ -150,6 +150,23 @@ pub fn mk_pool(rng: &mut Rng, pkt_addr: u64) -> Vec<PoolProg> {
         let v = vec![Insn::new(LDXDW, 2, 1, t, 0), Insn::new(LDDW, 0, 0, 0, id as u32 as i32), Insn::new(0, 0, 0, 0, (id >> 32) as u32 as i32), Insn::new(JA, 0, 0, 1, 0), Insn::new(CALL, 0, 0, 0, 0x7777), Insn::new(EXIT, 0, 0, 0, 0)];
         pool.push(PoolProg { bytes: encode_prog(&v), id, needs_helper: false, frame_probe: false, default_ok: true, probe: Some((0, 8)), prefix_of: None, tail_probe: true, stack_read: false });
     }
+    // fixed VM, offsets (24, 16): reads the two buffer slots that are NOT pointer slots for these
+    // offsets (bytes 0..16) - zero on a fresh VM; an earlier load with offsets (0, 8) followed by an
+    // execution left packet addresses there if the buffer was kept
+    {
+        let id = next_id(rng, 0);
+        let v = vec![
+            Insn::new(LDXDW, 2, 1, 0, 0),
+            Insn::new(LDXDW, 3, 1, 8, 0),
+            Insn::new(0x4f, 2, 3, 0, 0),
+            Insn::new(LDDW, 0, 0, 0, id as u32 as i32),
+            Insn::new(0, 0, 0, 0, (id >> 32) as u32 as i32),
+            Insn::new(JEQ_IMM, 2, 0, 1, 0),
+            Insn::new(0xa7, 0, 0, 0, 1),
+            Insn::new(EXIT, 0, 0, 0, 0),
+        ];
+        pool.push(PoolProg { bytes: encode_prog(&v), id, needs_helper: false, frame_probe: false, default_ok: true, probe: Some((24, 16)), prefix_of: None, tail_probe: false, stack_read: false });
+    }
     // stack writers (fill all 64 slots with an id-dependent pattern) and stack readers (fold four
     // slots they never wrote): what one execution leaves in "its" stack must not reach another
     for k in 0..4 {
